@@ -1,6 +1,6 @@
 (* C11 - loaded-runner limit, one runner per model, reuse when compatible.   Theorems only. *)
 From Coq Require Import List ZArith NArith Bool Lia Arith.
-From V Require Import Sched.Lts Sched.Reach Sched.InvLock Sched.InvStruct Sched.InvCount Sched.Thm Sched.ThmVictim Sched.ThmFit Sched.Refute Sched.Examples.
+From V Require Import Sched.Lts Sched.Reach Sched.InvLock Sched.InvStruct Sched.InvCount Sched.Thm Sched.ThmVictim Sched.ThmFit Sched.EnvCfg Sched.Refute Sched.Examples.
 Import ListNotations.
 
 (* Reuse: when the pending loop looks up a request's model and finds a runner, it goes on to needsReload for that
@@ -104,3 +104,15 @@ Theorem C11_idle_victim_first :
                       Some (goto s t (match tl with [] => PExp q first | _ => PFvR q tl first end), [])).
 Proof. intros c s t q r tl first x E M. split; intros R. eapply victim_idle; eauto. eapply victim_busy; eauto. Qed.
 Print Assumptions C11_idle_victim_first.
+
+(* The configured limits are what the environment says (Sched/EnvCfg.v: strip white space, strip quotes, parse, else
+   the default): a limit spelled with padding and quotes around the digits - as env files and container runtimes pass
+   it - means the same as the plain number.  The real envconfig readers are compared with this model on generated
+   spellings by the environment stage of the harness; a share of the scheduler runs spell their limits that way. *)
+Theorem C11_limit_spelling :
+  forall def ws1 q1 d q2 ws2,
+  forallb is_space ws1 = true -> forallb is_space ws2 = true ->
+  forallb is_quote q1 = true -> forallb is_quote q2 = true -> forallb is_digit d = true ->
+  read_uint def (ws1 ++ q1 ++ d ++ q2 ++ ws2) = read_uint def d.
+Proof. exact read_uint_spelling. Qed.
+Print Assumptions C11_limit_spelling.
